@@ -407,6 +407,12 @@ func (a *Agent) gatherCandidatesLocal(ctx context.Context, networkTypes []Networ
 		}
 
 		for _, mappedIP := range mappedAddrs {
+			// Same RFC 8445 5.1.1.1 exclusions as for interface addresses (site-local, IPv4-compatible):
+			// an external address of a host rewrite rule is not exempt from them.
+			if mappedIP.Is6() && !isSupportedIPv6Partial(mappedIP.AsSlice()) {
+				continue
+			}
+
 			address := mappedIP.String()
 			var isLocationTracked bool
 			if a.mDNSMode == MulticastDNSModeQueryAndGather {
